@@ -616,7 +616,7 @@ def pmap(f, items, jobs=8):
         return [f(x) for x in items]
     ctxm = multiprocessing.get_context("fork")
     with ctxm.Pool(jobs) as pool:
-        return pool.map(f, items, chunksize=max(1, len(items) // (jobs * 8)))
+        return pool.map(f, items, chunksize=max(1, len(items) // (jobs * 64)))
 
 
 def nontrivial_key(c, n):
@@ -635,7 +635,7 @@ def evaluate_real(ctx, cases):
     cases = [cases[i] for i in order]
     results, pos, aborted = [], 0, 0
     while pos < len(cases):
-        batch = cases[pos:pos + 320]
+        batch = cases[pos:pos + (320 if pos == 0 else 2400)]
         pos += len(batch)
         rs = pmap(eval_real, batch)
         results += rs
@@ -694,8 +694,9 @@ def evaluate_scripted(ctx, cases):
     cases = [dict(cases[i]) for i in order]
     preps, pos, short = [], 0, False
     while pos < len(cases):
-        batch = cases[pos:pos + 96]
+        batch = cases[pos:pos + (96 if pos == 0 else 640)]
         pos += len(batch)
+        batch.sort(key=lambda c: -(c["nx"] * c["ny"] * c.get("k", 1)))      # long runs first
         if short:
             for c in batch:
                 if c["fn"] == "bluenoise":
@@ -723,7 +724,12 @@ def evaluate_scripted(ctx, cases):
         if "line" in r:
             lines.append(r["line"])
             keep.append(r)
-    outs = run_driver_parallel(ctx.exe["c19"], lines)
+    # longest inputs first and strided over the driver processes: balanced load
+    order = sorted(range(len(lines)), key=lambda i: -len(lines[i]))
+    so = run_driver_parallel(ctx.exe["c19"], [lines[i] for i in order], jobs=min(16, os.cpu_count() or 8))
+    outs = [None] * len(lines)
+    for i, o in zip(order, so):
+        outs[i] = o
     st = res.extra.setdefault("scripted_trace_totals", {"iterations": 0, "accepted": 0, "removed": 0, "nochange": 0, "candidates": 0, "exact_ties_r": 0})
     for r, o in zip(keep, outs):
         if r["case"]["fn"] == "bluenoise":
